@@ -257,6 +257,13 @@ func mergeValues(opts *options, old, v value) (value, Error) {
 		return v, nil
 	}
 
+	// An old value that only refers to a sub-configuration (reference) yields
+	// the sub-configuration stored at the referenced setting itself: merge
+	// into a copy, the referenced setting is not part of this merge.
+	if _, stored := old.(cfgSub); !stored {
+		subOld = cfgSub{subOld}.cpy(old.Context()).(cfgSub).c
+	}
+
 	// merge new and old evaluated sub-configurations and return subOld for
 	// reassigning to old key in case of subOld being generated dynamically
 	if err := mergeConfig(opts, subOld, subV); err != nil {
